@@ -57,7 +57,7 @@ def judge_stub(res, text, tmod, m, records, k, cfgname, flag, wit):
     collided = {loc.split()[-1] for kind, _d, loc in se.events if kind == "typeddict-class-name-collision"}
     for kind, detail, loc in se.events:
         if kind == "typeddict-class-name-collision":
-            bad("typeddict-class-name-collision", detail)
+            res.count("stubs_with_typeddict_class_name_collision")  # matters for C01 only where a value is then rejected
         elif kind != "function-duplicated":
             bad(kind, f"{loc}: {detail}")
     stats = {}
@@ -191,13 +191,20 @@ def work(p):
             big = ["{" + ", ".join(f"'{c}': {i}" for i, c in enumerate("abcdefghijkl"[:n])) + "}" for n in (2, 3, 4, 9, 10, 11)]
             opts["wide"] = True
             opts["pool"] = rng.sample(fam, 40) + big + ["[" + ", ".join(rng.sample(fam, 3)) + "]" for _ in range(10)] + ["1", "None", "'s'"]
-        m = gm.Mod(rng, spec["name"], opts).build(spec.get("nfuncs", 10))
+        if spec.get("literal"):
+            m = gm.Mod(rng, spec["name"], opts)
+            m.source = gm.HEADER + spec["literal"]["source"]
+            for i, (q, flavor) in enumerate(spec["literal"]["funcs"]):
+                m.funcs.append(gm.FuncSpec(i + 1, q, [], "module", flavor))
+            res.count("pinned_witnesses")
+        else:
+            m = gm.Mod(rng, spec["name"], opts).build(spec.get("nfuncs", 10))
         try:
             tmod, path = modrun.load(d, m)
         except Exception as e:
             res.violation("harness:module-does-not-import", repr(e), {"source": m.source})
             continue
-        plan = modrun.plan_to_json(m, m.call_plan(rng, None, ncalls=(1, 4)))
+        plan = spec["literal"]["plan"] if spec.get("literal") else modrun.plan_to_json(m, m.call_plan(rng, None, ncalls=(1, 4)))
         planfile = os.path.join(d, m.name + "_plan.json")
         json.dump(plan, open(planfile, "w"))
         script = os.path.join(d, m.name + "_driver.py")
@@ -258,9 +265,18 @@ def program_specs(ck, n, prop="C01", full=True):
     return specs
 
 
+PINNED = [
+    {"name": "vfm01_pinned_collision", "seed": "pinned", "stratum": "collide", "ks": [3], "rewriters": ["NoOpRewriter"], "flags": ["default"],
+     "literal": {"source": "\ndef f(p0):\n    return 1\n\n\ndef g(p0):\n    return 2\n",
+                 "funcs": [["f", "plain"], ["g", "plain"]],
+                 "plan": [{"qual": "f", "access": "f", "args": ["{'a': 1}"], "kwargs": {}, "flavor": "plain", "kind": "module"},
+                          {"qual": "g", "access": "g", "args": ["{'b': 's'}"], "kwargs": {}, "flavor": "plain", "kind": "module"}]}},
+]
+
+
 def run(ck):
     quick = ck.tier == "quick"
-    specs = program_specs(ck, 32 if quick else 600)
+    specs = PINNED + program_specs(ck, 32 if quick else 600)
     n = min(core.NPROC * (1 if quick else 4), len(specs))
     for r in core.pmap("vf.props.c01:work", [{"programs": specs[i::n]} for i in range(n)], timeout=3400):
         if r is None or "harness_error" in r or "mt_exception" in r:
